@@ -2,6 +2,8 @@ package props
 
 import (
 	"fmt"
+	"github.com/go-kid/ioc/app"
+	"github.com/go-kid/ioc/configure/loader"
 	"math"
 	"reflect"
 	"regexp"
@@ -200,6 +202,10 @@ func (p c17) Run(c *core.Ctx) {
 	}
 	if c.Index%20 == 18 {
 		p.explicitPrefix(c)
+		return
+	}
+	if c.Index%20 == 16 {
+		p.viaArgs(c)
 		return
 	}
 	v := genValue(c)
@@ -687,4 +693,40 @@ func (p c17) explicitPrefix(c *core.Ctx) {
 	}
 	c.Count("explicit_prefix_cases_checked", 1)
 	c.Nontrivial("explicitprefix|" + hm + hr + ha)
+}
+
+// viaArgs: a string supplied on the command line (--app.config=key=value) arrives unchanged, whatever
+// characters it contains - bound by prefix, by placeholder and by the prop shorthand alike.
+func (p c17) viaArgs(c *core.Ctx) {
+	vals := []string{"a==b", "postgres://app@db.internal/main?sslmode=disable&x=1", "dG9rZW4=", "dG9rZW4tMg==", "k=v=w", "=lead", "trail=", "plain", "with space=1", "semi;colon=2"}
+	v := vals[c.Rng.Intn(len(vals))]
+	other := vals[c.Rng.Intn(len(vals))]
+	args := []string{"prog", "--app.config=cfg.k=" + v, "--unrelated=x=y", "--app.config=cfg.other=" + other}
+	fields := []world.FieldSpec{
+		{Name: "P", Type: reflect.TypeOf(""), Tag: `prefix:"cfg.k"`},
+		{Name: "V", Type: reflect.TypeOf(""), Tag: `value:"${cfg.k}"`},
+		{Name: "Q", Type: reflect.TypeOf(""), Tag: `prop:"cfg.k"`},
+		{Name: "O", Type: reflect.TypeOf(""), Tag: `prefix:"cfg.other"`},
+	}
+	h := world.NewHolder(world.BuildStruct(fields))
+	r := world.Start(&world.Scenario{}, world.Options{Extra: []any{h}, NoTracer: true, AppOptions: []app.SettingOption{app.AddConfigLoader(loader.NewArgsLoader(args))}})
+	c.Count("starts", 1)
+	detail := map[string]any{"arguments": args}
+	if r.Outcome() != "ok" {
+		c.Fail("", "start did not succeed: "+core.Short(r.OutcomeDetail(), 300), detail)
+		return
+	}
+	hv := reflect.ValueOf(h).Elem()
+	for i, want := range []string{v, v, v, other} {
+		if got := hv.Field(i).String(); got != want {
+			class := ""
+			if i == 1 || i == 2 {
+				class = classifyC17(c17Value{"string", want}, reflect.TypeOf(""), "value")
+			}
+			c.Fail(class, fmt.Sprintf("command-line value %q: field %s `%s` holds %q", want, fields[i].Name, fields[i].Tag, got), detail)
+			return
+		}
+	}
+	c.Count("command_line_values_checked", 4)
+	c.Nontrivial("viaargs|" + v + "|" + other)
 }
